@@ -1,3 +1,170 @@
-/-! # C03 — (stub: property theorems go here; see docs/BUILDING.md) -/
+import PtVerif.Proofs.Neutron
+/-!
+# C03 — neutron SLD, cross sections and penetration follow the documented equations
+
+Model: `PtVerif.Model.Neutron` (`scatteringByWavelength`, `neutronScattering` in the code's order
+of operations, `calculateScattering`, `bareScattering`, `interpClamp`), tied to nsf.py on every
+run by `harness/ptv/props/C03.py` (translator: `Generated/NeutronConsts`, `Generated/Constants`;
+correspondence: `ptdriver neutron`).  `Spec.*` is written from the docstring of
+`neutron_scattering`.  All theorems are at `ℝ`; floating-point rounding is not covered.
+-/
 namespace PtVerif.C03
+open PtModel PtModel.Neutron PtProofs.Neutron
+
+/-- **documented equations.**  For every compound (any number of atoms, any positive counts)
+    whose atoms all have neutron data, every positive density and wavelength, the seven returned
+    quantities are those of the documented equations evaluated on the tabulated `b_c`, `σ_a`,
+    `σ_s` and masses (interpolated, end-clamped table values for the energy-dependent atoms).
+    `ImNonpos`: every atom's absorption is ≥ 0 (the code returns `|Im|`, the documentation
+    `−Im`). -/
+theorem scattering_eq_spec (t : Tbl ℝ) (atoms : List (Atom × ℝ)) (ρ w : ℝ)
+    (hd : AllData t atoms) (h : Physical t atoms ρ w) (him : ImNonpos t w atoms) :
+    neutronScattering t atoms ρ w = .ok (Spec.scattering t atoms ρ w) :=
+  PtProofs.Neutron.scattering_eq_spec t atoms ρ w hd h him
+
+/-- the same under the bare sign conditions `0 ≤ N`, `Im b_c ≤ 0`, `m·ρ ≠ 0` (no positivity of
+    individual counts needed) -/
+theorem scattering_eq_spec_of_signs (t : Tbl ℝ) (atoms : List (Atom × ℝ)) (ρ w : ℝ)
+    (hd : AllData t atoms) (hv : Spec.molarMass t atoms * ρ ≠ 0)
+    (hN : 0 ≤ Spec.numberDensity t atoms ρ) (him : Spec.imBc t atoms w ≤ 0) :
+    neutronScattering t atoms ρ w = .ok (Spec.scattering t atoms ρ w) :=
+  PtProofs.Neutron.scattering_eq_spec_of_signs t atoms ρ w hd hv hN him
+
+/-- the `energy=` path is the same calculation at `λ = √(ENERGY_FACTOR / E)` -/
+theorem scattering_eq_spec_energy (t : Tbl ℝ) (atoms : List (Atom × ℝ)) (ρ e : ℝ)
+    (hd : AllData t atoms) (h : Physical t atoms ρ (neutronWavelength e))
+    (him : ImNonpos t (neutronWavelength e) atoms) :
+    neutronScatteringE t atoms ρ e = .ok (Spec.scattering t atoms ρ (neutronWavelength e)) :=
+  PtProofs.Neutron.scattering_eq_spec_energy t atoms ρ e hd h him
+
+/-- the per-atom step: `scattering_by_wavelength` returns `b_c − i σ_a/(1000·2·1.798)` and the
+    tabulated `σ_s`, or for an energy-dependent atom the interpolated `b_c` and `4π|b_c|²/100` -/
+theorem per_atom_eq_spec (r : NRec ℝ) (w : ℝ) : scatteringByWavelength r w = Spec.atom r w :=
+  sbw_eq_spec r w
+
+/-- **element queried directly** = the one-atom compound at the element's density
+    (`_number_density = N_A·ρ/m`, density.py) -/
+theorem element_eq_one_atom_compound (t : Tbl ℝ) (x : Atom) (r : NRec ℝ) (ρEl w : ℝ)
+    (hq : x.q = 0) (hrec : t.recOf x.z x.a = some r)
+    (hnd : r.numberDensity = numberDensityOf ρEl (t.mass x.z x.a))
+    (hm : t.mass x.z x.a ≠ 0) (hρ : ρEl ≠ 0) :
+    neutronScattering t [(x, 1)] ρEl w = .ok (bareScattering r w) :=
+  PtProofs.Neutron.element_eq_one_atom_compound t x r ρEl w hq hrec hnd hm hρ
+
+/-- **isotope queried directly** = the one-atom compound at the isotope's density
+    `ρ_el·m_iso/m_el` (the record carries the element's number density) -/
+theorem isotope_eq_one_atom_compound (t : Tbl ℝ) (x : Atom) (r : NRec ℝ) (ρEl mEl w : ℝ)
+    (hq : x.q = 0) (hrec : t.recOf x.z x.a = some r)
+    (hnd : r.numberDensity = numberDensityOf ρEl mEl)
+    (hm : t.mass x.z x.a ≠ 0) (hmEl : mEl ≠ 0) (hρ : ρEl ≠ 0) :
+    neutronScattering t [(x, 1)] (isotopeDensity ρEl (t.mass x.z x.a) mEl) w
+      = .ok (bareScattering r w) :=
+  PtProofs.Neutron.isotope_eq_one_atom_compound t x r ρEl mEl w hq hrec hnd hm hmEl hρ
+
+/-- **missing data**: the result is `(None, None, None)` exactly when some atom of the compound
+    has no neutron data -/
+theorem missing_gives_none (t : Tbl ℝ) (atoms : List (Atom × ℝ)) (ρ w : ℝ) :
+    neutronScattering t atoms ρ w = .missing ↔ ∃ e ∈ atoms, t.neutron e.1 = none := by
+  rw [missing_iff]
+  unfold AllData
+  constructor
+  · intro h
+    by_contra hc
+    apply h
+    intro e he
+    cases hn : t.neutron e.1 with
+    | none => exact absurd ⟨e, he, hn⟩ hc
+    | some r => rfl
+  · rintro ⟨e, he, hn⟩ h
+    have := h e he
+    simp [hn] at this
+
+/-- zero mass or density gives the vacuum tuple, and nothing else does -/
+theorem vacuum_iff (t : Tbl ℝ) (atoms : List (Atom × ℝ)) (ρ w : ℝ) (hd : AllData t atoms) :
+    neutronScattering t atoms ρ w = .vacuum ↔ Spec.molarMass t atoms * ρ = 0 :=
+  PtProofs.Neutron.vacuum_iff t atoms ρ w hd
+
+/-! ### end-clamped interpolation of the energy-dependent tables (strictly increasing grid) -/
+
+theorem interp_clamp_left (g : Grid ℝ) (hs : Increasing g.toList) (x : ℝ) (h : x ≤ g.first.1) :
+    interpClamp g x = g.first.2 := PtProofs.Neutron.interp_clamp_left g hs x h
+
+theorem interp_clamp_right (g : Grid ℝ) (hs : Increasing g.toList) (x : ℝ)
+    (h : (g.toList.getLast (by simp [Grid.toList])).1 ≤ x) :
+    interpClamp g x = (g.toList.getLast (by simp [Grid.toList])).2 :=
+  PtProofs.Neutron.interp_clamp_right g hs x h
+
+theorem interp_clamp_between (g : Grid ℝ) (hs : Increasing g.toList)
+    (pre post : List (ℝ × Cx ℝ)) (xj : ℝ) (yj : Cx ℝ) (xk : ℝ) (yk : Cx ℝ)
+    (hg : g.toList = pre ++ (xj, yj) :: (xk, yk) :: post) (x : ℝ) (hj : xj ≤ x) (hk : x < xk) :
+    interpClamp g x = (yj.1 + (yk.1 - yj.1) / (xk - xj) * (x - xj),
+                       yj.2 + (yk.2 - yj.2) / (xk - xj) * (x - xj)) :=
+  PtProofs.Neutron.interp_clamp_between g hs pre post xj yj xk yk hg x hj hk
+
+theorem interp_clamp_node (g : Grid ℝ) (hs : Increasing g.toList) (n : ℝ × Cx ℝ)
+    (hn : n ∈ g.toList) : interpClamp g n.1 = n.2 :=
+  PtProofs.Neutron.interp_clamp_node g hs n hn
+
+/-- an energy-dependent atom uses its table: `b_c` is the interpolated value and the total cross
+    section is `4π|b_c|²/100` -/
+theorem energy_dependent_uses_table (r : NRec ℝ) (g : Grid ℝ) (h : r.table = some g) (w : ℝ) :
+    scatteringByWavelength r w
+      = (interpClamp g w, 4 * Real.pi * ((interpClamp g w).1 * (interpClamp g w).1
+          + (interpClamp g w).2 * (interpClamp g w).2) / 100) := by
+  rw [sbw_eq_spec]; unfold Spec.atom; rw [h]; simp [lit]
+
+/-- `energy_dependent_init`: rows tabulated by strictly increasing positive energy give a grid
+    strictly increasing in wavelength – the hypothesis of the four interpolation theorems – and
+    the values stay with their energies -/
+theorem table_is_wavelength_ordered (rows : List (ℝ × ℝ × ℝ))
+    (hpos : ∀ r ∈ rows, 0 < r.1) (hinc : (rows.map (·.1)).Pairwise (· < ·)) :
+    Increasing (edNodes rows) ∧
+      (edNodes rows).map (·.2) = (rows.map fun r => (r.2.1, r.2.2)).reverse :=
+  ⟨edNodes_increasing rows hpos hinc, edNodes_values rows⟩
+
+/-! ### non-vacuity: water over a two-record table satisfies every hypothesis above -/
+
+noncomputable def exTbl : Tbl ℝ where
+  recOf := fun z a =>
+    if z = 1 ∧ a = 0 then some ⟨-3.739, 0.3326, 82.02, 4.2e22, none⟩
+    else if z = 8 ∧ a = 0 then some ⟨5.803, 0.00019, 4.232, 4.3e22, none⟩
+    else if z = 64 ∧ a = 0 then some ⟨9.5, 49700, 180, 3e22,
+      some ⟨(0.4, (10, -12)), [(1, (6, -13)), (2, (3, -9))]⟩⟩
+    else none
+  mass := fun z _ => if z = 1 then 1.008 else 15.999
+  me := 0.00054858
+
+def exWater : List (Atom × ℝ) := [(⟨1, 0, 0⟩, 2), (⟨8, 0, 0⟩, 1)]
+
+example : AllData exTbl exWater := by
+  intro e he
+  simp [exWater] at he
+  rcases he with rfl | rfl <;> simp [exTbl, Tbl.neutron]
+
+example : Physical exTbl exWater 1 1.798 where
+  nonempty := by simp [exWater]
+  counts := by intro e he; simp [exWater] at he; rcases he with rfl | rfl <;> norm_num
+  masses := by
+    intro e he; simp [exWater] at he
+    rcases he with rfl | rfl <;> simp [exTbl, Tbl.atomMass, atomMass] <;> norm_num
+  density := by norm_num
+  wavelength := by norm_num
+
+example : ImNonpos exTbl 1.798 exWater := by
+  intro e he
+  simp [exWater] at he
+  have := lambda0_pos
+  rcases he with rfl | rfl <;>
+    simp [exTbl, Tbl.neutron, Spec.atomOf, Spec.atom, Spec.imB, lit] <;> positivity
+
+/-- a compound with an atom outside the table is `missing` -/
+example : neutronScattering exTbl [(⟨1, 0, 0⟩, 2), (⟨2, 0, 0⟩, 1)] 1 1.798 = .missing :=
+  (missing_gives_none _ _ _ _).mpr ⟨(⟨2, 0, 0⟩, 1), by simp, by simp [exTbl, Tbl.neutron]⟩
+
+/-- the example grid is increasing and 1.5 lies between its second and third node -/
+example : interpClamp ⟨(0.4, (10, -12)), [(1, (6, -13)), (2, (3, -9))]⟩ (1.5 : ℝ)
+    = (6 + (3 - 6) / (2 - 1) * (1.5 - 1), -13 + (-9 - -13) / (2 - 1) * (1.5 - 1)) :=
+  interp_clamp_between _ (by simp [Increasing, Grid.toList]; norm_num)
+    [(0.4, (10, -12))] [] 1 (6, -13) 2 (3, -9) rfl 1.5 (by norm_num) (by norm_num)
+
 end PtVerif.C03
